@@ -161,6 +161,20 @@ def gen_sysworld(rng, small=False):
     return {"alias": rng.randint(0, 1), "dims": dims, "processes": procs, "flows": flows, "stocks": stocks, "params": params, "naming": naming, "build": build}
 
 
+def _undefined_process(world, k):
+    """a name that is not in the process list: unrelated, or something a lenient lookup might resolve anyway - the position of a
+    process written as text, a name in other case, with a blank at the edge, a fragment of a name"""
+    procs = world["processes"]
+    last = procs[-1]
+    cands = ["no such process", str(len(procs) - 1), "1", "0", last.upper() if last.upper() != last else last.lower(), last + " ", " " + last,
+             last[:-1], "sysenv2"]
+    for j in range(len(cands)):
+        c = cands[(k + j) % len(cands)]
+        if c not in procs:
+            return c
+    return "no such process"
+
+
 class _P:
     """minimal stand-in with the two attributes the naming functions read"""
 
@@ -209,7 +223,7 @@ def make_definition(world, faults=()):
         if "flow_undefined_dim" in fl and k == fl["flow_undefined_dim"]["k"] % len(world["flows"]):
             dl = dl + ("q",)
         if "flow_undefined_process" in fl and k == fl["flow_undefined_process"]["k"] % len(world["flows"]):
-            to = "no such process"
+            to = _undefined_process(world, fl["flow_undefined_process"]["k"] // max(1, len(world["flows"])))
         if (alias + k) % 2:
             kw = {"from_process_name": frm, "to_process_name": to, "dim_letters": dl}
         else:
@@ -237,7 +251,7 @@ def make_definition(world, faults=()):
         if hit("stock_undefined_dim"):
             kw["dim_letters"] = dl + ("q",)
         if hit("stock_undefined_process"):
-            kw[pkey] = "no such process"
+            kw[pkey] = _undefined_process(world, fl["stock_undefined_process"]["k"] // max(1, len(world["stocks"])))
         if hit("stock_missing_lifetime") and s["cls"] != "simple":
             kw.pop("lifetime_model_class", None)
         if hit("stock_unused_lifetime") and s["cls"] == "simple":
@@ -332,12 +346,12 @@ def write_files(world, tmp, faults=(), applied=None):
     dim_files, prm_files, dim_sheets, prm_sheets = {}, {}, {}, {}
     books = {}
 
-    def put(df, fname, sheet, header):
+    def put(df, fname, sheet, header, key=None):
         full = os.path.join(tmp, fname + ext)
         if path == "csv":
             df.to_csv(full, index=False, header=header)
         else:
-            books.setdefault(full, []).append((sheet, df, header))
+            books.setdefault(full, []).append((sheet, df, header, key))
         return full
 
     one = world["build"]["one_workbook"] and path == "excel" and world["build"]["sheets"]
@@ -348,7 +362,7 @@ def write_files(world, tmp, faults=(), applied=None):
             df = pd.DataFrame([[d["items"][0], d["items"][-1]], [d["items"][-1], d["items"][0]]])
         fname = "dimensions" if one else f"dim_{d['letter']}"
         sheet = f"dim {d['name']}"[:30]
-        dim_files[d["name"]] = put(df, fname, sheet, False)
+        dim_files[d["name"]] = put(df, fname, sheet, False, d["name"])
         dim_sheets[d["name"]] = sheet
     for n, p in enumerate(world["params"]):
         df = _param_frame(world, p)
@@ -372,18 +386,27 @@ def write_files(world, tmp, faults=(), applied=None):
                 applied.add("param_row_duplicated")
         fname = "parameters" if one else f"prm_{n}"
         sheet = f"p {p['name']}"[:30]
-        prm_files[p["name"]] = put(df, fname, sheet, True)
+        prm_files[p["name"]] = put(df, fname, sheet, True, p["name"])
         prm_sheets[p["name"]] = sheet
-    for full, sheets in books.items():
+    for n_book, (full, sheets) in enumerate(books.items()):
         with pd.ExcelWriter(full, engine="openpyxl") as xw:
             if not world["build"]["sheets"]:
-                # first sheet is the data, a second one holds something else: "the first sheet unless one is named"
-                sheet, df, header = sheets[0]
+                # first sheet is the data, a second one holds something else: "the first sheet unless one is named".  The second one may
+                # carry the very name of the dimension / parameter, and may be the tab that was selected when the file was saved
+                sheet, df, header, key = sheets[0]
+                style = (world["build"]["dict_order"] + n_book) % 4
+                decoy = "notes"
+                if style >= 2 and key and len(key) <= 31 and not any(c in key for c in "[]:*?/\\'") and key != "Sheet1":
+                    decoy = key
                 df.to_excel(xw, sheet_name="Sheet1", index=False, header=header)
-                pd.DataFrame([["decoy", 1], ["sheet", 2]]).to_excel(xw, sheet_name="notes", index=False, header=False)
+                pd.DataFrame([["decoy", 1], ["sheet", 2]]).to_excel(xw, sheet_name=decoy, index=False, header=False)
+                if style % 2:
+                    xw.book.active = 1
+                    for k_, ws in enumerate(xw.book.worksheets):
+                        ws.sheet_view.tabSelected = (k_ == 1)
             else:
                 pd.DataFrame([["decoy", 1], ["sheet", 2]]).to_excel(xw, sheet_name="notes first", index=False, header=False)
-                for sheet, df, header in sheets:
+                for sheet, df, header, key in sheets:
                     df.to_excel(xw, sheet_name=sheet, index=False, header=header)
     if "missing_dim_file" in fl:
         name = world["dims"][fl["missing_dim_file"]["k"] % len(world["dims"])]["name"]
